@@ -316,6 +316,11 @@ def all_instances(run):
             seen.add(key)
             keep.append(i)
         insts = keep
+    # segment-register pushes / pops under the operand- and address-size prefixes (the stack slot follows the operand size only)
+    for sr in ("es", "ds", "fs", "gs"):
+        for text, size, form in (("pushl %%%s" % sr, 32, "sreg"), ("pushw %%%s" % sr, 16, "sreg-o16"), ("addr16 pushl %%%s" % sr, 32, "sreg-a16"),
+                                 ("addr16 pushw %%%s" % sr, 16, "sreg-o16-a16")):
+            insts.append({"text": text, "family": "push", "size": size, "form": form})
     for text, form in MMX:
         insts.append({"text": text, "family": "mmx", "size": 64, "form": form})
     for text, form in SSE:
